@@ -436,4 +436,40 @@ example : ∃ img, Xcmp.compile demoArr = .ok img := by
     rw [h] at this
     simp at this
 
+/-- `val put = 1; var g;
+     func at(array s, val i) is return s[i]
+     proc show(array s) is var k; { k := at(s, 0); put(k, 0); put(s[1], 0) }
+     proc relay(array s) is show(s)
+     proc main() is { show("ABCD"); relay("ABCD"); g := at("hello", 1); 0(g) }` -/
+def demoStr : X.Program :=
+  { globals := [.val "put" (.num 1), .var "g"],
+    procs := [
+      { isFunc := true, name := "at", formals := [.array "s", .val "i"], locals := [],
+        body := .ret (.sub "s" (.name "i")) },
+      { isFunc := false, name := "show", formals := [.array "s"], locals := [.var "k"],
+        body := .seq [.assign "k" (.call "at" [.name "s", .num 0]), .call "put" [.name "k", .num 0],
+                      .call "put" [.sub "s" (.num 1), .num 0]] },
+      { isFunc := false, name := "relay", formals := [.array "s"], locals := [],
+        body := .call "show" [.name "s"] },
+      { isFunc := false, name := "main", formals := [], locals := [],
+        body := .seq [.call "show" [.str [65, 66, 67, 68]], .call "relay" [.str [65, 66, 67, 68]],
+                      .assign "g" (.call "at" [.str [104, 101, 108, 108, 111], .num 1]),
+                      .syscall 0 [.name "g"]] }] }
+
+/-! Non-vacuity for string literals: `demoStr` (string literals as actuals - the same text twice, so
+    two entries of the string pool -, an array formal bound to a literal and passed on, constant and
+    computed subscripts of it, a function called with a literal) is in the classes V2 and V3, has a
+    defined behaviour (four characters written, exit value 28524 = the second packed word of
+    "hello") and compiles. -/
+example : C01s.v2Ok demoStr = true := by decide +kernel
+example : C01s.v3Ok demoStr = true := by decide +kernel
+example : behaviourIs (X.run demoStr ⟨[], fun _ => []⟩ 5000) 28524 4 = true := by decide +kernel
+example : ∃ img, Xcmp.compile demoStr = .ok img := by
+  cases h : Xcmp.compile demoStr with
+  | ok img => exact ⟨img, rfl⟩
+  | error e =>
+    have : (match Xcmp.compile demoStr with | .ok _ => true | .error _ => false) = true := by decide +kernel
+    rw [h] at this
+    simp at this
+
 end Hex.C01
